@@ -169,12 +169,12 @@ func (n *node[T]) clean(prefix string) {
 	}
 
 	dels := make([]string, 0, len(n.children))
-	var cleaned *node[T]
+	var cleaned []*node[T]
 	for _, child := range n.children {
 		if len(child.segment.Value) < len(prefix) {
 			if strings.HasPrefix(prefix, child.segment.Value) {
 				child.clean(prefix[len(child.segment.Value):])
-				cleaned = child
+				cleaned = append(cleaned, child)                   // {x} 和 {x}/b 都可能是 prefix 的前缀
 				if child.size() == 0 && len(child.children) == 0 { // 清理之后既无处理项也无子节点，与 Remove 一样不保留空节点。
 					dels = append(dels, child.segment.Value)
 				}
@@ -190,8 +190,10 @@ func (n *node[T]) clean(prefix string) {
 		n.children = removeNodes(n.children, del)
 	}
 	n.buildIndexes()
-	if cleaned != nil && cleaned.parent == n && slices.Contains(n.children, cleaned) {
-		cleaned.mergeChild()
+	for _, c := range cleaned {
+		if c.parent == n && slices.Contains(n.children, c) {
+			c.mergeChild()
+		}
 	}
 }
 
@@ -295,7 +297,7 @@ func (n *node[T]) mergeChild() {
 		n.segment.Type != syntax.String && n.children[0].segment.Type == syntax.String {
 		c := n.children[0]
 		seg, err := n.root.interceptors.NewSegment(n.segment.Value + c.segment.Value)
-		if err != nil {
+		if err != nil || seg.Type != n.segment.Type { // 之后注册的拦截器不能改变已有节点的类型
 			return
 		}
 
